@@ -52,6 +52,8 @@ type hxCommit struct {
 type hxSrv struct {
 	// configuration
 	caps       []string // EHLO keywords advertised (e.g. "8BITMIME", "DSN", "AUTH PLAIN")
+	capsTLS    []string // if non-nil: keywords advertised once TLS is active (a server may change its offer after STARTTLS)
+	capsTLSSet bool
 	maxDev     int      // bound on non-OK replies per run (-1: unbounded)
 	symDigits  bool     // second and third digit of failing replies symbolic
 	noDrop     bool     // never drop the connection
@@ -273,9 +275,13 @@ func (s *hxSrv) respond(line []byte) {
 			s.heloDone = true
 			s.from, s.rcpts, s.rcptRejected = "", nil, false
 			if verb == "EHLO" {
-				s.ehloCaps = s.caps
+				caps := s.caps
+				if s.tlsActive && s.capsTLSSet {
+					caps = s.capsTLS
+				}
+				s.ehloCaps = caps
 				c.code = code
-				lines := append([]string{"hx.example greets you"}, s.caps...)
+				lines := append([]string{"hx.example greets you"}, caps...)
 				for i, l := range lines {
 					sep := byte('-')
 					if i == len(lines)-1 {
